@@ -580,6 +580,7 @@ func (f *followingQuery) Select(t iterator) NodeNavigator {
 
 func (f *followingQuery) Evaluate(t iterator) interface{} {
 	f.Input.Evaluate(t)
+	f.iterator = nil
 	return f
 }
 
@@ -669,6 +670,7 @@ func (p *precedingQuery) Select(t iterator) NodeNavigator {
 
 func (p *precedingQuery) Evaluate(t iterator) interface{} {
 	p.Input.Evaluate(t)
+	p.iterator = nil
 	return p
 }
 
